@@ -15,7 +15,7 @@
 EXTENDS Integers, Sequences, FiniteSets, TLC
 
 CONSTANTS Proto, Mux, Runner, MaxOps, LeakMainOnMux, LeakPluginBrokered
-Ops == {"dispense", "broker_h2p", "broker_p2h", "stdio", "accept_during_shutdown"}
+Ops == {"dispense", "broker_h2p", "broker_p2h", "stdio", "accept_during_shutdown", "unmatched_dials", "unmatched_accept"}
 
 VARIABLES res, phase, nops, nb
 rv == <<res, phase, nops, nb>>
@@ -38,6 +38,11 @@ Op(o) == /\ phase = "up" /\ nops < MaxOps /\ nops' = nops + 1
             ELSE IF o \in {"broker_h2p", "broker_p2h", "accept_during_shutdown"}
             THEN \* net/rpc and multiplexed gRPC: a stream over the existing connection, goroutines only
                  /\ nb' = nb + 1 /\ res' = res \cup {<<"broker_goroutines", "both", nb + 1>>}
+            ELSE IF o \in {"unmatched_dials", "unmatched_accept"}
+            THEN \* the plugin dials one id twice and nobody accepts / the host accepts and nobody dials: the
+                 \* calls give up after the pending window; what they started (pending slots, expiry
+                 \* goroutines, a listener with its socket under plain gRPC) is gone by then
+                 /\ nb' = nb + 1 /\ UNCHANGED res
             ELSE UNCHANGED <<res, nb>>
          /\ UNCHANGED phase
 \* graceful Kill: the protocol client is closed, the plugin stops its servers, closes its listeners
